@@ -33,6 +33,8 @@ PYVC_MODULES = [
     "contracts.abelian_ops",
     "contracts.alignment",
     "contracts.fusecache",
+    "contracts.indexops",
+    "contracts.truncation",
 ]
 
 BASE = [A_BUILTINS, A_INT, A_TERM, A_NUMPY, A_BOUNDED, A_USER]
